@@ -121,7 +121,9 @@ func matched(f *Failure, rr *ReplayResult) *Failure {
 			return g
 		}
 	}
-	if f.Class == "budget" {
+	// "race": which pair of accesses to a racy object the detector names first can vary with what
+	// ran before in the process; any report reproduces the finding
+	if f.Class == "budget" || f.Class == "race" {
 		for _, g := range rr.Fails {
 			if g.Class == f.Class {
 				return g
